@@ -192,11 +192,23 @@ DeliverClauses(filt, detmap, pres, posts, steps) ==
                LET p == pres[d.slot]  q == posts[d.slot] IN
                /\ d.tid = q.tid /\ FieldOK(d, "ev", q.ev) /\ FieldOK(d, "par", q.par)
                /\ FieldOK(d, "ns", q.ns) /\ FieldOK(d, "act", q.act) /\ FieldOK(d, "pt", q.pt)
-               /\ FieldOK(d, "dept", q.dept)
+               /\ FieldOK(d, "dept", q.dept) /\ FieldOK(d, "stept", q.stept)
+               /\ FieldOK(d, "dir0", p.dir) /\ FieldOK(d, "dir1", q.dir)
                /\ FieldOK(d, "Et0", p.Et) /\ FieldOK(d, "pos0", p.pos) /\ FieldOK(d, "tt0", p.tt)
                /\ FieldOK(d, "vol0", p.vol)
                /\ FieldOK(d, "Et1", q.Et) /\ FieldOK(d, "pos1", q.pos) /\ FieldOK(d, "tt1", q.tt)
                /\ (Has(d, "vol1") => (d.vol1 = q.vol \/ q.out))
                /\ (Has(d, "det") => (p.vol \in DOMAIN detmap /\ d.det = detmap[p.vol]))
         THEN {} ELSE {"C17.FieldsEqual"})
+
+\* copy_steps (DetectorSteps.cc): the compacted in-detector output a hit processor consumes equals the
+\* delivered steps, entry by entry in slot order, on every field both carry
+DsoOnly == {"slot", "act", "vol0", "vol1"}
+DsoClauses(rec) ==
+  IF ~Has(rec, "dso") THEN {}
+  ELSE IF /\ Len(rec.dso) = Len(rec.steps)
+          /\ \A k \in DOMAIN rec.dso :
+                /\ DOMAIN rec.dso[k] = (DOMAIN rec.steps[k]) \ DsoOnly
+                /\ \A f \in DOMAIN rec.dso[k] : rec.dso[k][f] = rec.steps[k][f]
+       THEN {} ELSE {"C17.DetectorStepsCopy"}
 =============================================================================
